@@ -260,7 +260,9 @@ func c08Run(c *fw.Ctx) {
 // acts only for a caller presenting exactly the secret the loaded configuration holds; a caller that
 // presents nothing, empty strings, or a piece of the configured value is refused.
 func c08Unconfigured(c *fw.Ctx) {
-	configured := []string{"(unset)", "s3cret-new-0123456789,", ",s3cret-old-0123456789", "s3cret-new-0123456789, ,s3cret-old-0123456789", "s3cret-new-0123456789,s3cret-old-0123456789", " s3cret-padded-0123456789 ", "s3cret with spaces 0123456789", "s3cret-new-0123456789;s3cret-old-0123456789"}
+	configured := []string{"(unset)", "s3cret-new-0123456789,", ",s3cret-old-0123456789", "s3cret-new-0123456789, ,s3cret-old-0123456789", "s3cret-new-0123456789,s3cret-old-0123456789", " s3cret-padded-0123456789 ", "s3cret with spaces 0123456789", "s3cret-new-0123456789;s3cret-old-0123456789",
+		// (what a standard-base64 secret looks like)
+		"s3cret+with/plus+and=pad0123456789=="}
 	drive(c, "unconfigured-proxy-client", -1, func(x *explore.Exec, owned bool) {
 		conf := configured[x.Choose("configured-secret", len(configured))]
 		ep := []string{"redeem", "refresh", "profile", "validate"}[x.Choose("endpoint", 4)]
@@ -275,7 +277,12 @@ func c08Unconfigured(c *fw.Ctx) {
 				pieces = append(pieces, f, strings.TrimSpace(f))
 			}
 			pieces = append(pieces, strings.TrimSpace(conf), conf)
+			// near misses of the whole value: characters that forms and URLs treat alike
+			pieces = append(pieces, strings.ReplaceAll(conf, "+", " "), strings.ReplaceAll(conf, " ", "+"), strings.ReplaceAll(conf, "+", "%2B"), strings.ReplaceAll(conf, "/", "%2F"),
+				strings.TrimRight(conf, "="), strings.ToLower(conf), strings.ToUpper(conf), strings.ReplaceAll(strings.ReplaceAll(conf, "+", "-"), "/", "_"))
 		}
+		// where a presented piece goes: the X-Client-Secret header, or the client_secret form parameter
+		inBody := x.Choose("secret-placement", 2) == 1
 		presentedKinds := []string{"nothing", "empty-id-and-secret", "empty-id-only", "right-id-no-secret", "right-id-empty-secret"}
 		pk := x.Choose("credentials", len(presentedKinds)+len(pieces))
 		if !owned {
@@ -335,7 +342,13 @@ func c08Unconfigured(c *fw.Ctx) {
 			presented = fmt.Sprintf("right-id-and-piece-of-configured-secret %q", secret)
 			q.Set("client_id", harness.ClientID)
 			body.Set("client_id", harness.ClientID)
-			hdr.Set("X-Client-Secret", secret)
+			if inBody {
+				body.Set("client_secret", secret)
+				q.Set("client_secret", secret)
+				presented += " as the client_secret parameter"
+			} else {
+				hdr.Set("X-Client-Secret", secret)
+			}
 			legit = secret != "" && secret == loaded
 		}
 		method := "GET"
@@ -397,7 +410,7 @@ func init() {
 			"x secret placement {absent, body right/wrong, X-Client-Secret right/wrong, query right, prefix of the secret, secret plus a suffix, empty, body wrong + header right} x code (redeem only) {absent, garbage, genuine, bit-flipped, genuine with a line break inserted / a trailing newline / padding appended, sealed under the cookie key, genuine with expired token deadline, genuine with expired lifetime, expired only 1 s / 4 s ago}; " +
 			"oracle: a request that nowhere presents the right id AND the right secret => status >= 400, none of the session's token/email strings in body or headers, no identity-provider call; /redeem 200 => genuine unexpired code and the JSON is exactly that session's email and tokens; " +
 			"thorough adds methods {DELETE, PATCH, OPTIONS}, body encodings {multipart/form-data, urlencoded bytes labelled application/json}, path forms {trailing slash, default-provider path without the slug, doubled slash}, ids {upper-cased, right plus a space}, secrets {case-swapped, right plus a space, empty body + right header, wrong in query and header, wrong then right in the body}; " +
-			"(unconfigured-proxy-client) deployments with CLIENT_PROXY_ID/SECRET unset, or a CLIENT_PROXY_SECRET with a trailing / leading / doubled comma, a comma or semicolon pair, padding, blanks: refused at start-up, or every token endpoint refuses a caller presenting nothing / empty values / the right id without a secret / any piece of the configured value other than exactly the secret the loaded configuration holds; " +
+			"(unconfigured-proxy-client) deployments with CLIENT_PROXY_ID/SECRET unset, or a CLIENT_PROXY_SECRET with a trailing / leading / doubled comma, a comma or semicolon pair, padding, blanks, a standard-base64 shape with '+', '/' and '=': refused at start-up, or every token endpoint refuses a caller presenting nothing / empty values / the right id without a secret / any piece or near miss of the configured value ('+' and blank swapped, percent-encoded, padding stripped, case changed, URL-safe alphabet; in the header or as the client_secret parameter) other than exactly the secret the loaded configuration holds; " +
 			"distinct_nontrivial = distinct (endpoint, method, placements, code, encoding, path form, status, IdP calls)",
 		Assumptions:    []string{"IdP scripted and healthy"},
 		QuickBudget:    4 * time.Minute,
